@@ -502,9 +502,28 @@ type DataRecipe struct {
 	Shape string `json:"shape"`
 	Len   int    `json:"len"`
 	Seed  uint64 `json:"seed"`
+	// Stride > 0: a well-known file signature is stamped at most multiples of Stride (the block
+	// size), so that blocks other than the first begin like a file of some type
+	Stride int `json:"stride,omitempty"`
 }
 
-func (d DataRecipe) Bytes() []byte { return GenData(d.Shape, d.Len, d.Seed) }
+// fileSignatures are the leading bytes of common file formats (public knowledge, not taken from the code).
+var fileSignatures = []string{"BM", "MZ", "\x1f\x8b\x08", "PK\x03\x04", "\x89PNG\r\n\x1a\n", "RIFF", "\x7fELF", "\xff\xd8\xff\xe0", "BZh9", "GIF89a", "%PDF-1.", "7z\xbc\xaf\x27\x1c", "\xfd7zXZ\x00", "\x28\xb5\x2f\xfd", "\xca\xfe\xba\xbe", "\xcf\xfa\xed\xfe"}
+
+func (d DataRecipe) Bytes() []byte {
+	b := GenData(d.Shape, d.Len, d.Seed)
+	if d.Stride > 0 {
+		r := sim.NewSplitMix(d.Seed ^ 0x5167)
+		for off := 0; off < len(b); off += d.Stride {
+			if r.Intn(3) == 0 {
+				continue
+			}
+			sig := fileSignatures[r.Intn(len(fileSignatures))]
+			copy(b[off:], sig)
+		}
+	}
+	return b
+}
 
 // GenDataRecipe draws a recipe: length relative to the block size.
 func GenDataRecipe(t *sim.Tape, blockSize int, maxBlocks int) DataRecipe {
@@ -531,6 +550,9 @@ func GenDataRecipe(t *sim.Tape, blockSize int, maxBlocks int) DataRecipe {
 		d.Len = 0
 	}
 	d.Seed = t.Seed()
+	if t.Intn(8) == 0 {
+		d.Stride = blockSize
+	}
 	return d
 }
 
@@ -619,6 +641,15 @@ func Geometry(t *sim.Tape, cfg *Config, rec *DataRecipe, thorough bool) string {
 		cfg.Entropy = []string{"NONE", "HUFFMAN"}[t.Intn(2)]
 		cfg.Jobs = min(cfg.Jobs, 4)
 		cfg.DecJobs = min(cfg.DecJobs, 4)
+		if t.Intn(3) == 0 {
+			// chains whose worst-case output exceeds the per-task buffer (the encoder then enlarges
+			// its buffers on the fly), three or four blocks so that a batch has neighbours
+			cfg.Transform = []string{"EXE+LZX", "TEXT+UTF+EXE+PACK+MM+ROLZ", "EXE+RLT+TEXT+UTF+DNA", "EXE+LZ", "RLT+EXE+LZP"}[t.Intn(5)]
+			cfg.BlockSize = 256*1024 + 16*t.Intn(16*1024)
+			rec.Len = 2*cfg.BlockSize + t.Intn(2*cfg.BlockSize)
+			cfg.Jobs = 3 + t.Intn(2)
+			rec.Shape = []string{"exe", "mixed", "text", "random"}[t.Intn(4)]
+		}
 		return "bigblock"
 	}
 	return ""
